@@ -1,0 +1,47 @@
+//go:build verif
+
+// Contracts for the gRPC ActionCache handlers, checked by /verif (govc). Comment-only file.
+
+package server
+
+//@ extern google.golang.org/protobuf/proto.Marshal(m)
+//@   pure
+//@ extern google.golang.org/grpc/peer.FromContext(ctx)
+//@   pure
+//@   ensures result1 ==> (result0 != nil && result0.Addr != nil)
+//@ iface (net.Addr).String(a)
+//@   pure
+//@ extern strings.ContainsAny(s, chars)
+//@   pure
+//@ extern net.SplitHostPort(hostport)
+//@   pure
+//@ extern crypto/sha256.Sum256(data)
+//@   pure
+//@ iface (error).Error(e)
+//@   pure
+
+// The key an ActionResult is stored under / looked up with (C15): the digest's hash, or its
+// mangled form when instance mangling is on and an instance name is given.
+//@ pred acKey(s, hash, instance) = (s.mangleACKeys && instance != "") ? mangled(hash, instance) : hash
+
+//@ func addWorkerMetadataGRPC(ctx context.Context, ar *pb.ActionResult)
+//@   serves C11
+//@   requires ar != nil && ctx != nil
+//@   modifies ar.ExecutionMetadata, #remoteexecution.ExecutedActionMetadata.Worker
+//@   ensures[C11] filled: ar.ExecutionMetadata != nil && (old(ar.ExecutionMetadata) != nil ==> ar.ExecutionMetadata == old(ar.ExecutionMetadata))
+//@   ensures[C11] keepsworker: (old(ar.ExecutionMetadata) != nil && old(ar.ExecutionMetadata.Worker) != "") ==> ar.ExecutionMetadata.Worker == old(ar.ExecutionMetadata.Worker)
+//@   ensures[C11] others: forall m Int :: (old(allocated(m)) && m != ref(old(ar.ExecutionMetadata))) ==> #remoteexecution.ExecutedActionMetadata.Worker[m] == old(#remoteexecution.ExecutedActionMetadata.Worker)[m]
+
+//@ func (s *grpcServer) UpdateActionResult(ctx context.Context, req *pb.UpdateActionResultRequest) (*pb.ActionResult, error)
+//@   serves C01 C11 C14 C15
+//@   requires s != nil && s.cache != nil && s.accessLogger != nil && s.errorLogger != nil && ctx != nil
+//@   modifies casAcked, putN, hStream, hN, #remoteexecution.Digest.Hash, #remoteexecution.ActionResult.ExecutionMetadata, #remoteexecution.ExecutedActionMetadata.Worker, #remoteexecution.OutputFile.Digest
+//@   ensures[C14] oneof: (result1 == nil) <==> (result0 != nil)
+//@   ensures[C11] valid: result1 == nil ==> (result0 == req.ActionResult && validAR(req.ActionResult))
+//@   call Put#0 asserts[C11] storedvalid: arg2 == 0 && validAR(req.ActionResult) && arg4 == len(data) && arg4 > 0
+//@   call Put#0 asserts[C15] key: arg3 == acKey(s, old(req.ActionDigest.Hash), req.InstanceName)
+//@   call Put#1 asserts[C01] filedigest: arg2 == 1 && f.Digest != nil && arg3 == f.Digest.Hash && arg4 == f.Digest.SizeBytes
+//@   call Put#2 asserts[C01] stdoutdigest: arg2 == 1 && (req.ActionResult.StdoutDigest != nil ==> (arg3 == req.ActionResult.StdoutDigest.Hash && arg4 == req.ActionResult.StdoutDigest.SizeBytes))
+//@   call Put#3 asserts[C01] stderrdigest: arg2 == 1 && (req.ActionResult.StderrDigest != nil ==> (arg3 == req.ActionResult.StderrDigest.Hash && arg4 == req.ActionResult.StderrDigest.SizeBytes))
+//@   loop 0 invariant[C11] valid: validAR(req.ActionResult) && req.ActionResult != nil
+//@   loop 0 modifies casAcked, putN, #remoteexecution.OutputFile.Digest
